@@ -344,6 +344,7 @@ func checkC10(c *Ctx) {
 	c10Boundaries(c)
 	c10Unicode(c)
 	c10OpaqueContainers(c)
+	c10EmbeddedNested(c)
 	for i := 0; i < n; i++ {
 		g := &envTypeGen{r: r, used: map[string]bool{}, alias: r.Chance(40), embed: r.Chance(40), colls: r.Chance(40), empties: r.Chance(50), ascii: true}
 		saved := envLeafTypes
